@@ -133,6 +133,7 @@ package ratelimit
 //@ type TokenLimiter
 //@   immutable defaultRates extract extractRates bucketSets errHandler capacity next log
 //@   setup Wrap
+//@   protects mutex: bucketSets
 //@   guards mutex: collections.TTLMap.vdom collections.TTLMap.vtag collections.TTLMap.vval collections.TTLMap.vexp collections.TTLMap.vlen
 //@   lockinv mutex (tl): entries_typed: entriesTyped(tl)
 //@   lockinv mutex (tl): entries_buckets_ok: entriesBucketsOK(tl)
